@@ -213,3 +213,89 @@ for meth, cls in (('insert_SyntheticExit', 'SyntheticExit'), ('insert_SyntheticT
         known={'R3': 'any(len(self.graph[p].backedges) != 0 for p in predecessors)'},
         properties=['C14', 'C05'], gen='insert',
     ))
+
+# ---- insert_block_and_control_blocks: run-time contract (tier B for now: checked at every real call, not yet proved)
+ARCS = '[(p, s) for p in predecessors for s in sorted(set(old.self.graph[p].jump_targets) & set(successors))]'
+A0 = 'get(old.self.name_gen.kinds, "synth_asign", 0)'
+register(Contract(
+    qual=SC + ':SCFG.insert_block_and_control_blocks', params=dict(IB_PARAMS), modifies=['self.graph', 'self.name_gen.kinds'],
+    e1=False, gen='insert_ctrl',
+    requires={
+        'keys': KEYS,
+        'fresh': 'new_name not in self.graph',
+        'preds-in': 'all(p in self.graph for p in predecessors)',
+        'preds-distinct': 'distinct(predecessors)',
+        'succs-distinct': 'distinct(successors)',
+        'targets-distinct': 'all(distinct(self.graph[p]._jump_targets) for p in predecessors)',
+        'succs-targeted': 'all(any(s in self.graph[p].jump_targets for p in predecessors) for s in successors)',
+        'generator-fresh': 'all(block_name("synth_asign", get(self.name_gen.kinds, "synth_asign", 0) + k) not in self.graph for k in range(8))',
+        'branch-preds': 'all(table_ok(self.graph[p]) for p in predecessors if isinstance(self.graph[p], SyntheticBranch))',
+    },
+    known={'R3': 'any(len(self.graph[p].backedges) != 0 for p in predecessors)'},
+    ensures={
+        'head': 'type(self.graph[new_name]) is SyntheticHead and self.graph[new_name]._jump_targets == tuple(successors)'
+                ' and self.graph[new_name].backedges == ()'
+                ' and self.graph[new_name].variable == var_name("control", get(old.self.name_gen.kinds, "control", 0))',
+        'table': 'self.graph[new_name].branch_value_table == {k: s for k, (p, s) in enumerate(%s)}' % ARCS,
+        'assignments': 'all(self.graph[block_name("synth_asign", %s + k)] == SyntheticAssignment(block_name("synth_asign", %s + k), (new_name,), (),'
+                       ' {var_name("control", get(old.self.name_gen.kinds, "control", 0)): k}) for k in range(len(%s)))' % (A0, A0, ARCS),
+        'preds': 'all(self.graph[p]._jump_targets == tuple(block_name("synth_asign", %s + (%s).index((p, t))) if (p, t) in %s else t'
+                 ' for t in old.self.graph[p]._jump_targets) for p in predecessors)' % (A0, ARCS, ARCS),
+        'preds-same-otherwise': 'all(ib_plain(old.self.graph[p], self.graph[p]) and ib_branch(old.self.graph[p], self.graph[p])'
+                                ' and ib_branch_renamed(old.self.graph[p], self.graph[p]) and ib_branch_table(old.self.graph[p], self.graph[p])'
+                                ' for p in predecessors)',
+        'dom': 'set(self.graph) == set(old.self.graph) | {new_name} | {block_name("synth_asign", %s + k) for k in range(len(%s))}' % (A0, ARCS),
+        'others': 'all(self.graph[b] == old.self.graph[b] for b in old.self.graph if b not in predecessors)',
+        'kinds': 'self.name_gen.kinds == updated(updated(old.self.name_gen.kinds, "control", get(old.self.name_gen.kinds, "control", 0) + 1),'
+                 ' "synth_asign", %s + len(%s)) if len(%s) > 0 else self.name_gen.kinds == updated(old.self.name_gen.kinds, "control",'
+                 ' get(old.self.name_gen.kinds, "control", 0) + 1)' % (A0, ARCS, ARCS),
+        'keys': KEYS,
+    },
+    properties=['C14', 'C06', 'C12', 'C18'],
+    note='exact generated names and constants in the postcondition => functional => independent of set iteration order (C12)',
+))
+
+register(Contract(
+    qual=SC + ':SCFG.join_returns', params={'self': 'SCFG'}, modifies=['self.graph', 'self.name_gen.kinds'], e1=False,
+    requires={'keys': KEYS,
+              'generator-fresh': 'block_name("synth_return", get(self.name_gen.kinds, "synth_return", 0)) not in self.graph'},
+    known={'R3': 'any(len(b.backedges) != 0 for b in self.graph.values() if b.is_exiting)'},
+    ensures={
+        'noop': 'implies(len([n for n in old.self.graph if old.self.graph[n].is_exiting]) <= 1,'
+                ' self.graph == old.self.graph and self.name_gen.kinds == old.self.name_gen.kinds)',
+        'closed': 'implies(len([n for n in old.self.graph if old.self.graph[n].is_exiting]) > 1,'
+                  ' [n for n in self.graph if self.graph[n].is_exiting] == [block_name("synth_return", get(old.self.name_gen.kinds, "synth_return", 0))]'
+                  ' and type(self.graph[block_name("synth_return", get(old.self.name_gen.kinds, "synth_return", 0))]) is SyntheticReturn'
+                  ' and all(self.graph[n]._jump_targets == old.self.graph[n]._jump_targets + (block_name("synth_return", get(old.self.name_gen.kinds, "synth_return", 0)),)'
+                  ' for n in old.self.graph if old.self.graph[n].is_exiting)'
+                  ' and all(self.graph[n] == old.self.graph[n] for n in old.self.graph if not old.self.graph[n].is_exiting))',
+    },
+    properties=['C14', 'C05'],
+))
+
+register(Contract(
+    qual=SC + ':SCFG.join_tails_and_exits', params={'self': 'SCFG', 'tails': 'list[name]', 'exits': 'list[name]'},
+    returns='pair[name,name]', modifies=['self.graph', 'self.name_gen.kinds'], e1=False, gen='tails_exits',
+    requires={'keys': KEYS, 'nonempty': 'len(tails) >= 1 and len(exits) >= 1',
+              'tails-in': 'all(t in self.graph for t in tails)', 'distinct': 'distinct(tails) and distinct(exits)',
+              'targets-distinct': 'all(distinct(self.graph[t]._jump_targets) for t in tails)',
+              'generator-fresh': 'block_name("synth_tail", get(self.name_gen.kinds, "synth_tail", 0)) not in self.graph'
+                                 ' and block_name("synth_exit", get(self.name_gen.kinds, "synth_exit", 0)) not in self.graph',
+              'not-exits': 'all(t not in exits for t in tails)',
+              'branch-tails': 'all(table_ok(self.graph[t]) for t in tails if isinstance(self.graph[t], SyntheticBranch))'},
+    known={'R3': 'any(len(self.graph[t].backedges) != 0 for t in tails)',
+           'R13': 'len(tails) == 1 and len(exits) > 2'},
+    ensures={
+        'noop': 'implies(len(tails) == 1 and len(exits) == 1, result == (tails[0], exits[0]) and self.graph == old.self.graph)',
+        'result-tail': 'implies(len(tails) >= 2, result[0] == block_name("synth_tail", get(old.self.name_gen.kinds, "synth_tail", 0))'
+                       ' and type(self.graph[result[0]]) is SyntheticTail)',
+        'result-exit': 'implies(len(exits) >= 2, result[1] == block_name("synth_exit", get(old.self.name_gen.kinds, "synth_exit", 0))'
+                       ' and type(self.graph[result[1]]) is SyntheticExit and self.graph[result[1]]._jump_targets == tuple(exits))',
+        # every former tail-to-exit arc passes the returned tail and then the returned exit
+        'through': 'all(all((t2 not in exits) for t2 in self.graph[t]._jump_targets) or t == result[0] for t in tails)'
+                   ' and implies(len(tails) >= 2, all(any(t2 == result[0] for t2 in self.graph[t]._jump_targets) == any(t2 in exits for t2 in old.self.graph[t]._jump_targets) for t in tails))'
+                   ' and implies(len(exits) >= 2, all(t2 == result[1] or t2 not in exits for t2 in self.graph[result[0]]._jump_targets))',
+        'others': 'all(self.graph[b] == old.self.graph[b] for b in old.self.graph if b not in tails)',
+    },
+    properties=['C14'],
+))
